@@ -314,6 +314,10 @@ class Gen:
             "$vp.vp_failget[2] = 1",
             "local.nil_3.w++",
             "local.nil_3.w += 2",
+            "local.grp = NIL::\"b\"::game.m\nlocal.grp.f = 1",    # field assignment on a const array whose elements are no listeners
+            "local.grp = $vp::5\nlocal.grp.f = 1",
+            "local.grp = $vp::$vp\nlocal.grp.vp_failset = 1",
+            "local.grp = $vp::$ent\nlocal.grp.vp_ronly = 1",
         ]))
 
     def assign(self, d):
@@ -465,6 +469,9 @@ class Gen:
                 body.append(Node('local.e = spawn SimpleEntity "targetname" "ent"'))
             if li == 0 and r.random() < 0.6:
                 body.append(Node('local.vp = spawn VProbe "targetname" "vp"'))
+            if li == 0 and r.random() < 0.3:
+                # a second bearer of a name: $ent / $vp become groups (const arrays of listeners)
+                body.append(Node('local.e2 = spawn %s' % r.choice(['SimpleEntity "targetname" "ent"', 'VProbe "targetname" "vp"', 'VProbe "targetname" "ent"'])))
             depth = r.choice([1, 2, 3, self.max_depth]) if li == 0 else r.choice([1, 2, 3])
             body += self.block(depth, self.size if li == 0 else max(2, self.size // 2), {})
             body.append(Node(r.choice(["end", "end", "end %s" % self.prim(2), ""])) if r.random() < 0.9 else Node("wait 0"))
